@@ -209,6 +209,11 @@ func init() {
 		w := s.watcher(a[0].(*value))
 		d := fr.i.ex.env().abs(fr.i.ex.concStr(a[1]))
 		fr.i.ex.event("watch", d)
+		if !fr.i.ex.env().isDir(d) {
+			// inotify_add_watch on a path that does not exist (or is not a directory the harness created): ENOENT,
+			// exactly what the real watcher returns
+			return mkError(fr, "no such file or directory")
+		}
 		for _, x := range w.dirs {
 			if x == d {
 				return nilError()
